@@ -125,6 +125,9 @@ class Gen:
             vs = self.vars_of(ctx, t)
             if vs and (d <= 0 or self.r.random() < 0.3):
                 return {"k": "var", "n": self.r.choice(vs)[0]}
+            hs = [h for h in ctx.helpers if teq(h[2], t)]
+            if hs and d > 0 and self.r.random() < 0.5:
+                return self.call(ctx, self.r.choice(hs), d)
             if t.get("kind") == "option" and t["vs"][0]["k"] == "int" and d > 0 and self.r.random() < 0.3:
                 # try_into produces an Option
                 to = t["vs"][0]["ty"]
@@ -163,6 +166,9 @@ class Gen:
             if vs and r.random() < 0.8:
                 return {"k": "var", "n": r.choice(vs)[0]}
             return self.lit(ty)
+        if ctx.fn_ret.get("kind") == "option" and ctx.loop is None and r.random() < 0.15:
+            # the ? operator: propagate None out of the enclosing function
+            return {"k": "try", "e": self.expr(ctx, opt(T(ty)), d - 1)}
         c = r.random()
         if c < 0.12 and vs:
             return {"k": "var", "n": r.choice(vs)[0]}
@@ -226,6 +232,27 @@ class Gen:
             cands = [s for s in self.structs] + [opt(T("u16"))]
             st = r.choice(cands)
             return {"k": "serlen", "ty": st, "e": self.expr(ctx, st, d - 1)}
+        if c < 0.975:
+            inner = self.int_expr(ctx, ty, d - 1)
+            if r.random() < 0.5:
+                return {"k": "unbox", "e": {"k": "box", "e": inner}}
+            return {"k": "desnap", "e": {"k": "snap", "e": inner}}
+        if c < 0.99 and self.enums:
+            et = r.choice(self.enums)
+            scr = self.expr(ctx, et, d - 1)
+            arms = []
+            for vt in et["vs"]:
+                if vt["k"] == "unit":
+                    arms.append({"n": "", "body": self.int_expr(ctx, ty, d - 1)})
+                else:
+                    n = self.fresh(ctx)
+                    inner = Ctx(ctx.fn_ret, ctx.vars + [(n, vt, False)], ctx.helpers)
+                    inner.loop = ctx.loop
+                    arms.append({"n": n, "body": self.int_expr(inner, ty, d - 1)})
+            return {"k": "match", "e": scr, "ety": et, "arms": arms}
+        if c < 0.996 and ctx.fn_ret.get("kind") == "option":
+            # the ? operator: propagate None out of the enclosing function
+            return {"k": "try", "e": self.expr(ctx, opt(T(ty)), d - 1)}
         # struct field
         for s in r.sample(self.structs, len(self.structs)):
             idx = [i for i, x in enumerate(s["ts"]) if teq(x, T(ty))]
@@ -430,7 +457,20 @@ class Gen:
             if r.random() < 0.4:
                 ts.append(BOOL)
             self.structs.append({"k": "tuple", "ts": ts, "name": f"S{p}"})
+        if r.random() < 0.5:
+            vs = [T(r.choice(["u8", "u16", "felt", "i16"])), r.choice([T(r.choice(["u32", "u8"])), UNITT]), UNITT]
+            self.enums.append({"k": "enum", "name": f"E{p}", "kind": "user", "vs": vs})
         helpers = []
+        if r.random() < 0.4:
+            # an Option-returning helper whose body may use `?`
+            ity = r.choice(["u8", "u16", "u32", "i16"])
+            rt = opt(T(ity))
+            name = f"p{p}_opt"
+            ptys = [T(r.choice(INT_TYPES)), T(r.choice(SMALL))]
+            ctx = Ctx(rt, [("a0", ptys[0], False), ("a1", ptys[1], False)], [])
+            body = self.block(ctx, rt, depth - 1, allow_ret=False)
+            self.fns[name] = {"params": ["a0", "a1"], "ptys": ptys, "ret": rt, "body": body, "inline": r.choice(["", "never"])}
+            helpers.append((name, ptys, rt))
         for hi in range(r.choice([0, 1, 2])):
             ptys = [r.choice([T(r.choice(INT_TYPES)), T(r.choice(SMALL)), BOOL] + self.structs) for _ in range(r.choice([1, 2]))]
             rt = r.choice([T(r.choice(INT_TYPES)), T(r.choice(SMALL))] + self.structs)
@@ -608,6 +648,14 @@ def src(e):
         return f"{e['d']}.get({src(e['key'])})"
     if k == "dins":
         return f"{e['d']}.insert({src(e['key'])}, {src(e['val'])})"
+    if k == "box":
+        return f"BoxTrait::new({src(e['e'])})"
+    if k == "unbox":
+        return f"({src(e['e'])}).unbox()"
+    if k == "snap":
+        return f"@({src(e['e'])})"
+    if k == "desnap":
+        return f"(*{src(e['e'])})"
     if k == "serlen":
         return "{ let mut out__: Array<felt252> = array![]; let v__ = " + src(e["e"]) + "; Serde::serialize(@v__, ref out__); out__.len() }"
     if k == "loop":
@@ -649,6 +697,9 @@ def render(gen):
     for s in gen.structs:
         out.append("#[derive(Copy, Drop, PartialEq, Serde)]")
         out.append(f"struct {s['name']} {{ " + ", ".join(f"f{i + 1}: {cty(t)}" for i, t in enumerate(s["ts"])) + " }")
+    for e in gen.enums:
+        out.append("#[derive(Copy, Drop, PartialEq, Serde)]")
+        out.append(f"enum {e['name']} {{ " + ", ".join(f"V{i}" + ("" if t["k"] == "unit" else f": {cty(t)}") for i, t in enumerate(e["vs"])) + " }")
     for name, f in gen.fns.items():
         if f.get("inline"):
             out.append(f"#[inline({f['inline']})]")
@@ -712,6 +763,6 @@ def make_program(seed, pid, depth=3):
     main = g.program(depth)
     prog = {"fns": {name: {"params": f["params"], "body": spec_tree(f["body"])} for name, f in g.fns.items()},
             "main": main, "ret": desc(g.fns[main]["ret"])}
-    header = "use core::dict::Felt252Dict;\n" if g.uses_dict else ""
+    header = ""
     return {"pid": pid, "main": main, "prog": prog, "source": render(g), "uses_dict": g.uses_dict,
             "args": g.arg_vectors(main, 6), "ptys": [t["ty"] for t in g.fns[main]["ptys"]]}
